@@ -38,6 +38,8 @@ type Config struct {
 //	rm  p        RemoveHandler(p)
 //	go  t [fail] thread t (model tid) runs to its next yield point; fail: the sync it is
 //	             about to run fails (the publisher answers 500 for the head block)
+//	try t        thread t, whose next operation the model says blocks, is let go anyway: it
+//	             must be seen blocked on the mutex / semaphore (no model step)
 //	sleep ms     real time passes (idle-cleaner scenario); then RemoveHandler(p) is used
 //	             to learn whether the cleaner removed the handler
 type Decision struct {
@@ -60,6 +62,8 @@ func (d Decision) String() string {
 			return fmt.Sprintf("go%d!", d.T)
 		}
 		return fmt.Sprintf("go%d", d.T)
+	case "try":
+		return fmt.Sprintf("try%d", d.T)
 	case "sleep":
 		return fmt.Sprintf("sleep%d.%d", d.P, d.Ms)
 	}
@@ -395,11 +399,12 @@ func (r *Run) waitBlocked(t int) {
 		// it did not block: it will show up at a yield point and be reported there
 		select {
 		case a := <-r.arrivals:
+			r.early = append(r.early, a)
 			if a.goid == g {
-				r.early = append(r.early, a)
+				r.raw(a, t)
+				r.abort("mutual-exclusion", "thread %d passed %v although the model says it is held / full: arrived at %s", t, r.M.Threads[t].PC, a.point)
 				return
 			}
-			r.early = append(r.early, a)
 		default:
 		}
 		if st == "" || time.Now().After(deadline) {
@@ -555,6 +560,17 @@ func (r *Run) Runnable() []int {
 	return out
 }
 
+// Waiting: parked threads whose next operation blocks (candidates for "try").
+func (r *Run) Waiting() []int {
+	var out []int
+	for t := range r.M.Threads {
+		if r.parked[t] != nil && !r.M.Enabled(t) && r.M.Threads[t].PC != WNext {
+			out = append(out, t)
+		}
+	}
+	return out
+}
+
 func (r *Run) CanAnnounce() bool { return r.annOut == nil }
 
 // Do performs one decision.
@@ -644,6 +660,16 @@ func (r *Run) Do(d Decision) {
 				r.fail("remove-mismatch", "RemoveHandler(publisher %d) removed a handler the model says is in use", d.P)
 			}
 		}
+	case "try":
+		// thread t runs into a held mutex / the full semaphore and waits there (no model
+		// step): checks that the real code blocks where the model says it does
+		a := r.parked[d.T]
+		if a == nil || r.M.Enabled(d.T) {
+			r.abort("script", "thread %d cannot be tried (not parked, or runnable)", d.T)
+			return
+		}
+		delete(r.parked, d.T)
+		r.advance(d.T, nil, func() { r.release(a) })
 	case "go":
 		a := r.parked[d.T]
 		if a == nil || !r.M.Enabled(d.T) {
